@@ -6,7 +6,8 @@ for p in sorted(glob.glob(os.path.join(os.path.dirname(os.path.dirname(os.path.a
     m = json.load(open(p))
     c = m["check"]
     caught = "quick" if c["caught_by_quick"] else ("thorough only" if c["caught_by_thorough"] else "**MISSED**")
-    if m.get("caught_after_strengthening"): caught = "missed at first; " + m["caught_after_strengthening"]
+    if c.get("caught_by_quick_now") is False and not (c["caught_by_quick"] or c["caught_by_thorough"]): caught = "**MISSED**"
+    if m.get("caught_after_strengthening") and c.get("caught_by_quick_now", True): caught = "missed at first; now quick — " + m["caught_after_strengthening"][:160]
     rows.append(f"| `{m['id']}` | {m['breaks_property']} | {(m.get('what_changed') or '').replace('|','/')[:150]} | {(m.get('needs_to_manifest') or '').replace('|','/')[:130]} | {caught} |")
 print("| seeded change | property | what was changed | needs, to manifest | caught by `./check` |\n|---|---|---|---|---|")
 print("\n".join(rows))
